@@ -3,13 +3,15 @@
 // c21: histograms count every observation in exactly one bucket.
 //
 // Correspondence (model Metrics/Buckets.v instantiated with primitive floats):
-//   CDecl  codegen.CodeGen on a histogram declaration (hand-built AST with
-//          arbitrary float64 boundaries, and real program text through
-//          compiler.Compile) -> Metric.Buckets
-//   CObs   a real metrics.Metric with those ranges, GetDatum, Observe -> bucket
-//          counts, Count, Sum
-//   CExp   program text -> compile -> store -> observe -> Exporter.Collect
-//          through a prometheus registry -> upper bounds, cumulative counts
+//
+//	CDecl  codegen.CodeGen on a histogram declaration (hand-built AST with
+//	       arbitrary float64 boundaries, and real program text through
+//	       compiler.Compile) -> Metric.Buckets
+//	CObs   a real metrics.Metric with those ranges, GetDatum, Observe -> bucket
+//	       counts, Count, Sum
+//	CExp   program text -> compile -> store -> observe -> Exporter.Collect
+//	       through a prometheus registry -> upper bounds, cumulative counts
+//
 // Oracle (property text, independent of the model): after every single
 // Observe exactly one bucket moved, by one, and it is the first whose upper
 // bound is >= v (the +Inf bucket for NaN / above all); buckets sum to Count;
@@ -87,7 +89,7 @@ func rangesHex(rs []datum.Range) [][2]string {
 
 // ---------------------------------------------------------------- generators
 
-var starts = []float64{-5, -1, -0.5, math.Copysign(0, -1), 0, 5e-324, 1e-300, 0.001, 0.5, 1, 2, 1e10, 1.7e308, -1.7e308}
+var starts = []float64{-5, -2.5, -1.5, 9.3e18, 1e19, -1, -0.5, math.Copysign(0, -1), 0, 5e-324, 1e-300, 0.001, 0.5, 1, 2, 1e10, 1.7e308, -1.7e308}
 
 func genBounds(r *vlib.Rand, wild bool) []float64 {
 	n := r.Intn(7)
@@ -189,6 +191,10 @@ func genObs(r *vlib.Rand, maxes []float64, n int) []float64 {
 			continue
 		}
 		pool = append(pool, b, math.Nextafter(b, math.Inf(-1)), math.Nextafter(b, math.Inf(1)), b, b/2+0.0625)
+		if math.Abs(b) < 9e18 {
+			// the integers next to a fractional bound (they travel as int64 through iset)
+			pool = append(pool, math.Floor(b), math.Ceil(b), math.Floor(b)-1, math.Ceil(b)+1)
+		}
 	}
 	vs := make([]float64, n)
 	for i := range vs {
@@ -293,6 +299,22 @@ func classOf(v float64) string {
 	return "finite"
 }
 
+// observeVia records one observation through one of the three entry points the
+// VM has for a histogram: datum.Observe, datum.SetFloat (fset) and - for a value
+// that is an integer in the int64 range - datum.SetInt (iset: `h = $n` with an
+// integer capture).  They must agree: an observation is a number, whatever
+// representation it arrived in.
+func observeVia(d datum.Datum, v float64, ts time.Time, k int) {
+	switch {
+	case k%3 == 1 && v == math.Trunc(v) && v >= -9.2e18 && v <= 9.2e18:
+		datum.SetInt(d, int64(v), ts)
+	case k%3 == 2:
+		datum.SetFloat(d, v, ts)
+	default:
+		datum.Observe(d, v, ts)
+	}
+}
+
 // observeChecked performs the observations one at a time on the real datum
 // and evaluates the property after each.
 func observeChecked(out *vlib.Out, d datum.Datum, vs []float64, c any) {
@@ -305,7 +327,7 @@ func observeChecked(out *vlib.Out, d datum.Datum, vs []float64, c any) {
 		}
 	}
 	for k, v := range vs {
-		datum.Observe(d, v, time.Unix(int64(1000+k), 0))
+		observeVia(d, v, time.Unix(int64(1000+k), 0), k)
 		cur, cc, cs := snapshot(d)
 		want := expectedIndex(prev, v)
 		moved := []int{}
@@ -525,7 +547,7 @@ func runExpWith(out *vlib.Out, r *vlib.Rand, bs []float64, obsFor func([]float64
 		vs := obsFor(maxes)
 		obs[l] = vs
 		for k, v := range vs {
-			datum.Observe(d, v, time.Unix(int64(2000+k), 0))
+			observeVia(d, v, time.Unix(int64(2000+k), 0), k)
 		}
 	}
 	got, err := scrape(store)
@@ -610,7 +632,7 @@ func runExpRanges(out *vlib.Out, rs []datum.Range, vs []float64) {
 		panic(err)
 	}
 	for k, v := range vs {
-		datum.Observe(d, v, time.Unix(int64(3000+k), 0))
+		observeVia(d, v, time.Unix(int64(3000+k), 0), k)
 	}
 	store := metrics.NewStore()
 	if err := store.Add(m); err != nil {
